@@ -9,6 +9,7 @@ import (
 	"fmt"
 	"net"
 	"sync"
+	"sync/atomic"
 	"time"
 
 	"github.com/vmware/go-ipfix/pkg/entities"
@@ -33,7 +34,14 @@ type Peer struct {
 	conn   net.Conn
 	closed bool
 	eof    bool
+	// readDelay (ns): how long the TCP side waits after accepting before it starts to read
+	// (a collector that is slow to drain its socket)
+	readDelay atomic.Int64
 }
+
+// SetReadDelay makes the TCP peer wait d after accepting a connection before reading from it.
+// Call it before the exporter connects.
+func (p *Peer) SetReadDelay(d time.Duration) { p.readDelay.Store(int64(d)) }
 
 // NewPeer starts a peer on the loopback (v6 selects ::1).
 func NewPeer(proto string, v6 bool) (*Peer, error) {
@@ -58,6 +66,9 @@ func NewPeer(proto string, v6 bool) (*Peer, error) {
 			p.conn = c
 			p.cond.Broadcast()
 			p.mu.Unlock()
+			if d := time.Duration(p.readDelay.Load()); d > 0 {
+				time.Sleep(d)
+			}
 			buf := make([]byte, 1<<16)
 			for {
 				n, err := c.Read(buf)
@@ -272,6 +283,42 @@ func DataSetInto(set entities.Set, id uint16, fields []ref.Field, recs [][]ref.V
 			return nil, fmt.Errorf("record has more values than fields")
 		}
 		if err := addRecord(set, Elements(fields[:len(r)], r), id, path); err != nil {
+			return nil, err
+		}
+	}
+	return set, nil
+}
+
+// NewElements builds one long-lived element object per field (values empty), for applications
+// that reuse their elements from record to record.
+func NewElements(fields []ref.Field) []entities.InfoElementWithValue {
+	els := make([]entities.InfoElementWithValue, len(fields))
+	for i, f := range fields {
+		els[i] = glue.Element(glue.IE(f), f.Type, ref.Value{})
+	}
+	return els
+}
+
+// DataSetReusing fills set (reset first) with the records, writing every record's values into the
+// same element objects els (setter for a value, ResetValue for an empty one) before adding it:
+// the allocation-free pattern of long-running exporters.
+func DataSetReusing(set entities.Set, els []entities.InfoElementWithValue, id uint16, fields []ref.Field, recs [][]ref.Value, path int) (entities.Set, error) {
+	fill := func(r []ref.Value) {
+		for j := range fields {
+			glue.SetValue(els[j], fields[j].Type, r[j])
+		}
+	}
+	if path == PathMake && len(recs) == 1 {
+		fill(recs[0])
+		return entities.MakeDataSet(id, els)
+	}
+	set.ResetSet()
+	if err := set.PrepareSet(entities.Data, id); err != nil {
+		return nil, err
+	}
+	for _, r := range recs {
+		fill(r)
+		if err := addRecord(set, els, id, path); err != nil {
 			return nil, err
 		}
 	}
